@@ -353,6 +353,8 @@ def style_corruptions(owner, attrs):
       out.append((owner, key, "textOutline", ["red", "red 1px 2px 3px", "1xx", "red blue"]))
     elif p == "FontFamily":
       out.append((owner, key, "fontFamily", ["", ",", " "]))
+    elif p == "FillLineGap":
+      out.append((owner, key, "boolean", ["yes", "TRUE", "1", "", "False"]))
   return out
 
 
@@ -390,12 +392,16 @@ def corruptions(desc):
       out.append((n["id"], "space", "xml-space", ["bogus", "Preserve", ""]))
     if n["tc"] is not None:
       out.append((n["id"], "tc", "timeContainer", ["bogus", "SEQ", "sequence", ""]))
+    if n["ruby"] == "none":
+      # an ordinary span either way: tts:ruby="none" is the initial value
+      out.append((n["id"], "ruby", "ruby-token", ["foo", "Container", "", "base text", "NONE"]))
   for sty in desc["styles"]:
     out += style_corruptions(sty["id"], sty["attrs"])
   for i, at in enumerate(desc["initials"]):
     out += style_corruptions("initial%d" % i, at)
   if tt["cell"] is not None:
     out.append(("tt", "cell", "cellResolution", ["32", "a b", "32x15", "", "32,15"]))
+    out.append(("tt", "cell", "cellResolution-zero", ["0 15", "32 0", "0 0"]))
     out.append(("tt", "cell", "cellResolution-trailing-junk", ["%d %dx" % tuple(tt["cell"]), "%d %d 7" % tuple(tt["cell"])]))
   if tt["extent"] is not None:
     out.append(("tt", "extent", "tt-extent-one-token", ["1920px", "640px"]))
